@@ -20,12 +20,16 @@ def bind(pt):
     import peptacular.constants as c1
     import peptacular.chem.chem_constants as c2
     _consts = []
-    for mod in (c1, c2):
+    seen = set()
+    # every PUBLIC module-level table: the two constants modules and whatever else the package namespace exports
+    # (a client can read all of these; private memo tables are not observable state and are deliberately left out)
+    for mod in (c1, c2, pt):
         for name in sorted(vars(mod)):
             if name.startswith('_'):
                 continue
             v = getattr(mod, name)
-            if isinstance(v, (dict, list, set)) and not isinstance(v, types.ModuleType):
+            if isinstance(v, (dict, list, set)) and not isinstance(v, types.ModuleType) and id(v) not in seen:
+                seen.add(id(v))
                 _consts.append((f"{mod.__name__}.{name}", v))
 
 
